@@ -4,8 +4,9 @@ A private helper that *assigns through a `&mut` parameter* (`fn run(&self, state
 *state = new; .. }`) moves a piece of a function's dataflow into another body.  The value
 provenance used by the rules is per body (with call-by-call expansion of returned values), so
 such a helper would hide the assignments from it.  Helpers of exactly this shape - crate-local,
-not exported, not a trait method, not a closure, one static call site, non-recursive, at least
-one store `(*param) = ..` through a `&mut` parameter other than `self` - are therefore spliced
+not exported, not a trait method, not a closure, non-recursive, and either (one static call site and) at
+least one store `(*param) = ..` through a `&mut` parameter other than `self` or a small body
+(<= 12 blocks) with a `&mut` parameter it mutates through method calls - are therefore spliced
 into their single caller: locals and blocks are appended and renumbered, arguments become
 assignments to the callee's parameter locals, `return` becomes a jump to a continuation block
 that moves the callee's return place into the call's destination.  The helper's own body is then
@@ -47,15 +48,26 @@ def _writes_through_mut_param(b):
         for s in bl["stmts"]:
             if s["k"] == "assign":
                 p = s["place"]
-                if 2 <= p["l"] <= n and p["p"] and p["p"][0]["k"] == "deref" and b["locals"][p["l"]]["ty"].startswith("&mut "):
+                if 1 <= p["l"] <= n and p["p"] and p["p"][0]["k"] == "deref" and b["locals"][p["l"]]["ty"].startswith("&mut "):
                     return True
     return False
+
+
+SMALL = 12  # blocks (cleanup excluded)
+
+
+def _has_mut_param(b):
+    return any(b["locals"][i]["ty"].startswith("&mut ") for i in range(1, b["arg_count"] + 1))
 
 
 def _eligible(b):
     if b.get("kind") == "Closure" or b.get("impl_trait") or str(b.get("vis")) == "Public":
         return False
-    return _writes_through_mut_param(b)
+    if _writes_through_mut_param(b):
+        return True
+    # a small helper that mutates its `&mut` argument through method calls only
+    # (`fn collect(v: &mut Vec<T>, x: Option<T>) { if let Some(x) = x { v.push(x) } }`)
+    return _has_mut_param(b) and sum(1 for bl in b["blocks"] if not bl.get("cleanup")) <= SMALL
 
 
 def _remap(x, lo, bo, is_term=False):
@@ -145,10 +157,10 @@ def inline_outparam_helpers(j):
             if not _eligible(callee):
                 continue
             ss = sites.get(key, [])
-            if len(ss) != 1:
+            small = sum(1 for bl in callee["blocks"] if not bl.get("cleanup")) <= SMALL
+            if not ss or (len(ss) != 1 and not (small and len(ss) <= 4)):
                 continue
-            caller, bi = ss[0]
-            if caller is callee or caller["blocks"][bi]["term"].get("target") is None:
+            if any(c is callee or c["blocks"][bi_]["term"].get("target") is None for c, bi_ in ss):
                 continue
             # innermost first: the callee must not itself call another eligible helper
             inner = False
@@ -157,7 +169,8 @@ def inline_outparam_helpers(j):
                     inner = True
             if inner:
                 continue
-            _splice(caller, bi, callee)
+            for caller, bi in ss:
+                _splice(caller, bi, callee)
             j["bodies"] = [b for b in j["bodies"] if b is not callee]
             done.append(callee["path"])
             progress = True
